@@ -9,10 +9,11 @@ package main
 //               |T k c: the instruction raised a VM exception, k contexts were unloaded, c=1 the
 //                       handler is a CATCH (exception pushed), c=0 a FINALLY
 //               !     : the real step ended in FAULT for a reason the accounting model cannot see
-//                       (types, ranges, gas, …); "stack is too big" is NOT flagged: the model
+//                       (types, ranges, …); "stack is too big" is NOT flagged: the model
 //                       has to predict it from its own counter
 //             e <obs>  (echo) once a case has executed an instruction outside the modelled set
-// obs line:   <NONE|HALT> <refs> <reach> <depth> <reachG>   |   FAULT
+// ops line:   gas <limit picoGAS | -1> <price base>   (first line of a case, echoed)
+// obs line:   <NONE|HALT> <refs> <reach> <depth> <reachG> <datoshi>   |   FAULT
 //             reachG: what a walk from the roots AND from the ghost list (items of the evaluation stacks dropped
 //             by exception unwinding so far) finds; without cycles it must equal refs (refs_exact_unwind)
 
@@ -282,7 +283,8 @@ func describe(v *vm.VM, op opcode.Opcode, param []byte) (body string, modelled b
 			case sysInterop:
 				return "SYSCALL push", true, false
 			case sysBurn:
-				return "SYSCALL nop", true, false
+				// the handler charges AddDatoshi(n*1000): n*1000*ExecFeeFactorMultiplier picoGAS
+				return fmt.Sprintf("SYSCALL burn %d", int64(param[1])*1000*vm.ExecFeeFactorMultiplier), true, false
 			case sysMkArray:
 				return "SYSCALL mkarray", true, false
 			case sysPopOne:
@@ -294,6 +296,22 @@ func describe(v *vm.VM, op opcode.Opcode, param []byte) (body string, modelled b
 		return name, false, false
 	case opcode.THROW:
 		return name, true, true
+	case opcode.TRY, opcode.TRYL:
+		// which handler offsets are present (an offset of 0 means "none", vm.go:1849-1855): the model
+		// keeps the try stacks itself and computes the unwinding outcome from them
+		var c, f int32
+		if op == opcode.TRY && len(param) == 2 {
+			c, f = int32(int8(param[0])), int32(int8(param[1]))
+		} else if op == opcode.TRYL && len(param) == 8 {
+			c, f = int32(binary.LittleEndian.Uint32(param[:4])), int32(binary.LittleEndian.Uint32(param[4:]))
+		}
+		b2i := func(b bool) int {
+			if b {
+				return 1
+			}
+			return 0
+		}
+		return fmt.Sprintf("%s %d %d", name, b2i(c != 0), b2i(f != 0)), true, false
 	}
 	return name, true, false
 }
@@ -466,7 +484,7 @@ func (rn *runner) exec(p *caseProg, emit bool) runResult {
 		if obs == "FAULT" {
 			return obs
 		}
-		return fmt.Sprintf("%s %d", obs, walkGhost(ghost))
+		return fmt.Sprintf("%s %d %d", obs, walkGhost(ghost), v.GasConsumed())
 	}
 
 	// exactness: without cycles the counter equals what a walk from the roots and from the ghost
@@ -497,6 +515,15 @@ func (rn *runner) exec(p *caseProg, emit bool) runResult {
 	}
 
 	if emit {
+		// the gas configuration of the case: limit in picoGAS (SetGasLimit multiplies a positive limit), price base
+		lim := p.gasLimit
+		if lim > 0 {
+			lim *= vm.ExecFeeFactorMultiplier
+		} else if lim < 0 {
+			lim = -1
+		}
+		cfgLine := fmt.Sprintf("gas %d %d", lim, p.base)
+		o.Line(cfgLine, cfgLine)
 		o.Line("load", withGhost(check(false)))
 	}
 	for {
@@ -651,9 +678,18 @@ func (rn *runner) exec(p *caseProg, emit bool) runResult {
 		}
 		obs = withGhost(obs)
 		flag := ""
-		if obs == "FAULT" && (stepErr == nil || !strings.Contains(stepErr.Error(), "stack is too big")) && !keyFault {
+		tryFault := stepErr != nil && strings.Contains(stepErr.Error(), "maximum TRY depth exceeded")
+		if tryFault && emit {
+			o.Count("fault:try-depth (predicted by the model)")
+		}
+		gasFault := tryFault || (stepErr != nil && strings.Contains(stepErr.Error(), vm.ErrGASLimitExceeded.Error()))
+		if gasFault && !tryFault && emit {
+			o.Count("fault:gas-limit (predicted by the model)")
+		}
+		if obs == "FAULT" && (stepErr == nil || !strings.Contains(stepErr.Error(), "stack is too big")) && !keyFault && !gasFault {
 			// neither "stack is too big: n vs 2048" nor "invocation stack is too big: n" is flagged,
-			// nor a compound map key in SETITEM / PACKMAP
+			// nor a compound map key in SETITEM / PACKMAP, nor an exceeded gas limit (opcode price or a
+			// SYSCALL handler's charge): the model predicts those
 			flag = " !"
 		}
 		if keyFault {
